@@ -60,6 +60,7 @@ func sweepCmd(args []string) {
 	dump := fs.String("dump", "", "dump SMT scripts to dir")
 	repo := fs.String("repo", "/repo", "")
 	input := fs.Bool("input", false, "treat first []byte param as decoder input")
+	doReplay := fs.Bool("replay", false, "replay refuted safety obligations on the real code")
 	fs.Parse(args)
 	t0 := time.Now()
 	e := newEngine(*repo)
@@ -122,6 +123,30 @@ func sweepCmd(args []string) {
 					}
 				}
 			}
+		}
+	}
+	if *doReplay {
+		var cases []*ReplayCase
+		for _, r := range results {
+			for _, o := range r.Obls {
+				if o.Result == "proved" || !replayable[o.Class] {
+					continue
+				}
+				m := e.modelPass(r, o)
+				if m == nil {
+					fmt.Println("  no model for", o.Name)
+					continue
+				}
+				if rc, ok := e.buildReplay(r, o, m); ok {
+					cases = append(cases, rc)
+				} else {
+					fmt.Println("  no replay for", o.Name)
+				}
+			}
+		}
+		e.runReplays(cases)
+		for _, rc := range cases {
+			fmt.Printf("  REPLAY %s -> %s %s confirms=%v inputs=%v\n", rc.Obl.Name, rc.Outcome, rc.Detail, rc.Confirms, rc.Inputs)
 		}
 	}
 	for _, er := range e.engineErrs {
